@@ -1331,6 +1331,13 @@ func (c *Context) Reduce(d, x *Decimal) (int, Condition, error) {
 	_, n := d.Reduce(x)
 	d.Negative = neg
 	res := c.round(d, d)
+	if d.Form == Finite {
+		// Rounding can produce new trailing zeros (9.95 -> 10 at precision 2);
+		// remove them as well.
+		_, n2 := d.Reduce(d)
+		d.Negative = neg
+		n += n2
+	}
 	res, err := c.goError(res)
 	return n, res, err
 }
